@@ -272,7 +272,12 @@ class IoWorld:
     def snapshot(self) -> Dict[str, str]:
         out = {}
         for name in self.names():
-            with open(os.path.join(self.root, name), "rb") as f:
+            p_ = os.path.join(self.root, name)
+            if os.path.islink(p_):
+                # a link is what it points to by name; the content it shows follows its target and is the target's entry
+                out[name] = "<link to " + os.path.relpath(os.readlink(p_), self.root) + ">"
+                continue
+            with open(p_, "rb") as f:
                 out[name] = hashlib.blake2b(f.read(), digest_size=8).hexdigest()
         # directories other than the two of the namespace (and the parents writers are expected to create) are findings too
         for d, dirs, _files in os.walk(self.root):
@@ -378,7 +383,10 @@ class IoWorld:
             out.append(self.viol("dtype-differs", op, name, rec, {"want": str(wdt), "got": str(arr.dtype)}, pair))
             return out
         if rec.kind == "flow":
-            ok = np.allclose(arr.astype(np.float64), want.astype(np.float64), rtol=1e-5, atol=1e-6)
+            # world vectors are sums of products (direction x spacing x component): float32 round-off is relative to the
+            # largest term, i.e. to the scale of the field, not to each component
+            scale_ = max(1.0, float(np.max(np.abs(want.astype(np.float64)))) if want.size else 1.0)
+            ok = np.allclose(arr.astype(np.float64), want.astype(np.float64), rtol=1e-5, atol=2e-6 * scale_)
         else:
             ok = np.array_equal(arr, want.astype(arr.dtype), equal_nan=arr.dtype.kind == "f")
         if not ok:
@@ -461,6 +469,8 @@ class _Ops:
                 entry = "FlowField.sitk+WriteImage"
                 arg, cwd = self.full(name), None
                 os.makedirs(os.path.dirname(arg), exist_ok=True)  # SimpleITK's own writer needs the directory
+                if os.path.islink(arg):
+                    os.remove(arg)  # ... and writes through a link
                 call = lambda: sitk.WriteImage(obj.sitk(), arg, compress)
         else:
             arr = make_array(desc)
@@ -477,6 +487,8 @@ class _Ops:
                 img = Image(data, grid)
                 arg, cwd = self.full(name), None
                 os.makedirs(os.path.dirname(arg), exist_ok=True)  # SimpleITK's own writer needs the directory
+                if os.path.islink(arg):
+                    os.remove(arg)  # ... and writes through a link
                 call = lambda: sitk.WriteImage(img.sitk(), arg, compress)
             elif entry == "to_uri":
                 img = Image(data, grid)
@@ -485,6 +497,8 @@ class _Ops:
                 img = Image(data, grid)
                 call = lambda: img.write(arg, compress=compress)
         missing_dir = not os.path.isdir(os.path.dirname(self.full(name)))
+        owned_by_others = {f: pth for pth, r_ in self.rec.items() if pth != name and r_.acked for f in r_.files
+                           if not (self.rec.get(name) is not None and f in self.rec[name].files)}
         before = self.snapshot()
         fault = op.get("fault")
         if fault and suffix_of(name) in NATIVE_BYTES:
@@ -523,6 +537,12 @@ class _Ops:
             return out
         if foreign:
             out.violations.append(self.viol("foreign-file-touched", entry, name, rec, {"files": sorted(foreign)}))
+        # a writer may remove what belonged to the previous content of the path it writes (stale siblings of its own
+        # format); a file that is gone afterwards and was part of *another* acknowledged record is another image's data
+        gone = {t for t in touched if t in before and t not in after}
+        lost = sorted(t for t in gone if t in owned_by_others)
+        if lost and not foreign:
+            out.violations.append(self.viol("foreign-file-deleted", entry, name, rec, {"files": lost, "owners": sorted({owned_by_others[t] for t in lost})}))
         if not os.path.isfile(self.full(name)):
             out.violations.append(self.viol("write-no-file", entry, name, rec, {"listing": sorted(after)}))
             return out
@@ -554,6 +574,8 @@ class _Ops:
         else:
             arr = make_array(desc)
         os.makedirs(os.path.dirname(self.full(name)), exist_ok=True)  # the second party does not create directories
+        if os.path.islink(self.full(name)):
+            os.remove(self.full(name))  # ... and would write through a link
         before = self.snapshot()
         st, r = self.guarded(lambda: sitk.WriteImage(sitk_from(arr, hdr), self.full(name), compress))
         after = self.snapshot()
@@ -757,9 +779,10 @@ class _Ops:
             return StepResult("skipped", "absent")
         which = op.get("which", "all")
         victims = files if which == "all" else [files[int(which) % len(files)]]
+        before = self.snapshot()
         for f in victims:
             os.remove(self.full(f))
-        self.invalidate(set(victims))
+        self.invalidate(set(victims) | self.changed(before, self.snapshot()))
         if rec is not None and not (set(rec.files) - set(victims)):
             self.rec.pop(name, None)
         if which != "all" and len(files) > 1:
@@ -777,12 +800,32 @@ class _Ops:
         f = files[int(op.get("which", 0)) % len(files)]
         size = os.path.getsize(self.full(f))
         cut = int(size * float(op["frac"]))
+        before = self.snapshot()
         with open(self.full(f), "r+b") as fh:
             fh.truncate(cut)
         self.c["faults"]["torn_write"] += 1
-        self.invalidate({f})
+        self.invalidate({f} | self.changed(before, self.snapshot()))  # through a link it is the target that was torn
         self.recover.add(name)
         return StepResult("ok", "torn")
+
+    def op_symlink(self, op) -> StepResult:
+        """The janitor makes ``name`` a symbolic link to the file of another acknowledged single-file record (data
+        managed by a tool such as DVC): reading through the link gives that image; a later write to ``name`` must replace
+        the link and leave the file it pointed to alone."""
+        name, target = op["name"], op["target"]
+        trec = self.rec.get(target)
+        if trec is None or not trec.acked or suffix_of(name) != suffix_of(target) or name == target:
+            return StepResult("skipped")
+        if os.path.lexists(self.full(name)) or set(trec.files) != {target} or os.path.islink(self.full(target)):
+            return StepResult("skipped")
+        if not os.path.isdir(os.path.dirname(self.full(name))):
+            return StepResult("skipped")
+        if any(os.path.lexists(self.full(self.stem_of(name) + s_)) for s_ in SUFFIXES + [".raw", ".zraw", ".raw.gz", ".hdr.gz"]):
+            return StepResult("skipped")  # keep the stem free of other formats (ambiguous-stem rules stay as they are)
+        os.symlink(self.full(target), self.full(name))
+        self.rec[name] = Record(name, trec.kind, trec.arr, trec.hdr, {name, target}, trec.writer, True, trec.axes, trec.flow, trec.compress, dict(trec.desc))
+        self.c["faults"]["symlinked_path"] += 1
+        return StepResult("ok", "symlink")
 
     def _drop_held(self, files: set):
         """Results backed by files that a party other than deepali's writer is about to modify in place are let go
@@ -903,7 +946,9 @@ class _Gen:
         if not acked:
             W["dread"] *= 0.2
             W["sread"] *= 0.2
-            W["torn"] = 0
+            W["torn"] = W["symlink"] = 0
+        if not sc["faults"]["second_writer"]:
+            W["symlink"] = 0  # third-party edits of the namespace belong to the configurations with other parties
         if not present:
             W["delete"] = W["dread"] = W["sread"] = 0
         if not sc["faults"]["torn_write"]:
@@ -918,6 +963,10 @@ class _Gen:
             # recovery after a fault: the next acknowledged write to the same path, then a read, must pass
             force_name = rng.choice(pending)
             kind = "dwrite"
+        if kind == "symlink":
+            singles = [n for n in acked if set(self.rec[n].files) == {n} and suffix_of(n) in (".nii", ".nii.gz", ".nrrd", ".mha", ".vtk", ".mnc", ".hdf5")]
+            if not singles or self.sc["n_stems"] < 2:
+                kind = "dread" if acked else "dwrite"
         if kind in ("dwrite", "swrite"):
             pk = rng.weighted([("image", 3), ("flow", 1)])
             name = force_name or self.pick_name(rng, collide=rng.chance(0.5))
@@ -999,6 +1048,13 @@ class _Gen:
         if kind == "torn":
             name = rng.choice(acked)
             return {"op": "torn", "name": name, "which": rng.randint(0, 1), "frac": rng.round(0.0, 0.95, 2)}
+        if kind == "symlink":
+            singles = [n for n in acked if set(self.rec[n].files) == {n} and suffix_of(n) in (".nii", ".nii.gz", ".nrrd", ".mha", ".vtk", ".mnc", ".hdf5")]
+            if not singles:
+                return None
+            target = rng.choice(singles)
+            free = [st for st in STEMS[: self.sc["n_stems"]] if st != self.stem_of(target) and not st.startswith(NEWDIR)]
+            return {"op": "symlink", "name": rng.choice(free) + suffix_of(target), "target": target}
         raise HarnessError(kind)
 
 
@@ -1015,7 +1071,7 @@ class IoEngine:
         if rng.chance(0.3):
             faults = {k: False for k in faults}  # fault-free configuration (second party off too)
         suffix_on = {s: not rng.chance(0.25) for s in SUFFIXES}
-        weights = {"dwrite": 10, "dread": 12, "swrite": 4, "sread": 7, "delete": 2, "torn": 2}
+        weights = {"dwrite": 10, "dread": 12, "swrite": 4, "sread": 7, "delete": 2, "torn": 2, "symlink": 1.2}
         for k in sorted(weights):
             if rng.chance(0.3):
                 weights[k] *= rng.choice([0.3, 2.0])
